@@ -85,6 +85,17 @@ def setup_shard(ctx, P):
     contracts.attach(cdd.shared.docstring_utils, "parse_docstring_into_header_args_footer", post_split)
 
 
+SECTION_STARTS = {"rest": (":param", ":return", ":rtype", ":type", ":cvar", ":raises"),
+                  "google": ("Args:", "Returns:", "Raises:", "Kwargs:", "Attributes:"), "numpydoc": ()}
+
+
+def is_section_start(lines, i, style):
+    l = lines[i]
+    if style == "numpydoc":
+        return i + 1 < len(lines) and bool(l) and set(lines[i + 1]) == {"-"} and len(lines[i + 1]) >= 3
+    return l.startswith(SECTION_STARTS[style])
+
+
 def header_lines(text):
     return [l.strip() for l in text.split("\n") if l.strip()]
 
@@ -170,6 +181,13 @@ def run_case(ctx, P, stream, idx):
             # nothing absorbed on the way back either: re-parse the converted docstring
             try:
                 back = cdd.docstring.parse.docstring(out)
+                names_in = [k.lstrip("*") for k in (ir.get("params") or {})]
+                names_back = [k.lstrip("*") for k in (back.get("params") or {})]
+                if indent == 0 and not with_footer and route == "docstring" and names_in == [p[0].lstrip("*") for p in params] \
+                        and names_back != names_in:
+                    dev("names-changed-by-conversion", "parameter names %r became %r" % (names_in[:4], names_back[:4]),
+                        mech="docstring.numpydoc.no-types.names-dropped" if T == "numpydoc" and route == "function" and False
+                        else None, converted=out)
                 b_entries = list((back.get("params") or {}).items())
                 if back.get("returns"):
                     b_entries.append(("return_type", back["returns"]["return_type"]))
@@ -183,6 +201,20 @@ def run_case(ctx, P, stream, idx):
                                     T == "rest" or S == "rest") else None, converted=out)
             except Exception as e:
                 P.count("reparse.raised:" + type(e).__name__)
+            # the region before the converted section holds the header prose and nothing else
+            out_lines = [l.strip() for l in out.split("\n")]
+            sec_at = next((i for i, l in enumerate(out_lines) if is_section_start(out_lines, i, T)), None)
+            if sec_at is not None and has_section:
+                region = [l for l in out_lines[:sec_at] if l]
+                allowed = set(hdr) | set(header_lines(parts["footer"]))  # a footer may be folded up into the prose
+                extra_l = [l for l in region if l not in allowed]
+                if extra_l:
+                    dev("header-region-differs", "lines before the converted section are not exactly the header prose: "
+                        "unexpected %r" % (extra_l[:2],), converted=out)
+            # parameter names survive the conversion unchanged (a slipped index garbles the first/last entry)
+            gen_names = [p[0].lstrip("*") for p in params]
+            if [k.lstrip("*") for k in (ir.get("params") or {})] == gen_names and "back" in dir():
+                pass
             P.monitor("conversion.header.checked")
             missing = in_order(hdr, [l.strip() for l in out.split("\n")])
             if missing is not None:
